@@ -27,7 +27,8 @@ unsigned server_of(const std::string &key,unsigned n){   // independent re-imple
 std::string key_of(int k){ static const char *ks[] = {"k0","k1","key two","k\x01\xff\x7f bin","\x7f","a-very-long-key-0123456789-0123456789-0123456789-0123456789-0123456789"}; k = ((k % 7) + 7) % 7; if(k == 6) return std::string("nul\0key",7); return std::string(ks[k]); }
 // 100+k: the key k itself; 200+k: a name that has key k as a proper prefix ("article-5/comments"); 300+k: a proper prefix of key k
 std::string trig_of(int t){ t = ((t % 1000) + 1000) % 1000; if(t >= 300){ std::string k = key_of(t-300); return k.size() > 1 ? k.substr(0,k.size()-1) : k + k; } if(t >= 200) return key_of(t-200) + "/c"; if(t >= 100) return key_of(t-100); if(t == 7) return ""; if(t == 8) return std::string("tn\0x",4); if(t >= 50) return "trigger-" + std::to_string(t) + "-" + std::string((size_t)(t % 17),'x'); return "t" + std::to_string(t); }
-std::string value_of(int opidx,int len,int fill){ std::string v = "v" + std::to_string(opidx) + ":"; if(len <= 0) return len < 0 ? v : std::string(); v += wire::gen_bytes(opidx*7+1,(size_t)len,fill); if(fill == 0 && v.size() > 4) v[3] = '\0'; return v; }
+// fill 3..9: an "alias record" - the value begins with the name of another key (k = fill-3), so that bytes of a reply that end up where a key is expected name a real entry
+std::string value_of(int opidx,int len,int fill){ if(fill >= 3){ std::string v = key_of(fill-3) + "#v" + std::to_string(opidx) + ":"; if(len > 0) v += wire::gen_bytes(opidx*7+1,(size_t)len,1); return v; } std::string v = "v" + std::to_string(opidx) + ":"; if(len <= 0) return len < 0 ? v : std::string(); v += wire::gen_bytes(opidx*7+1,(size_t)len,fill); if(fill == 0 && v.size() > 4) v[3] = '\0'; return v; }
 
 struct E4 : Engine {
 	bool fork_per_run(const J &) override { return true; }   // server threads + process-wide state: pristine process per run
@@ -46,7 +47,7 @@ struct E4 : Engine {
 		J ops = J::arr();
 		for(int i=0;i<nops;i++){ J o = J::obj(); o["c"] = (int)r.below(nc); o["t"] = (int)r.below(2); unsigned y = r.below(100);
 			if(y < 34){ o["op"] = "store"; o["k"] = koff + (int)r.below(nkeys); J tr = J::arr(); if(nul_trig && r.below(3) == 0) tr.push(8); int nt = ntrig ? r.below(3) : 0; for(int k=0;k<nt;k++) tr.push((int)r.below(ntrig)); if(r.below(8) == 0) tr.push(100 + koff + (int)r.below(nkeys)); if(r.below(8) == 0) tr.push((r.below(3) ? 200 : 300) + koff + (int)r.below(nkeys)); if(r.below(25) == 0) for(int k=0;k<30;k++) tr.push(50+k); if(r.below(30) == 0) tr.push(7); o["trig"] = tr; if(i > 0 && r.below(6) == 0) o["dup"] = (int)r.below(i);
-				o["dl"] = r.below(10) == 0 ? -1 : r.below(12) == 0 ? 1000000000 : 5 + (int)r.below(100); unsigned z = r.below(10); o["len"] = z == 0 ? 0 : z < 7 ? (int)r.below(60) : z < 9 ? (int)r.below(p.geti("chan_cap") < 200 ? 300 : 4000) : (int)r.below(p.geti("chan_cap") < 200 ? 600 : thorough ? 100000 : 30000); o["fill"] = (int)r.below(3); }
+				o["dl"] = r.below(10) == 0 ? -1 : r.below(12) == 0 ? 1000000000 : 5 + (int)r.below(100); unsigned z = r.below(10); o["len"] = z == 0 ? 0 : z < 7 ? (int)r.below(60) : z < 9 ? (int)r.below(p.geti("chan_cap") < 200 ? 300 : 4000) : (int)r.below(p.geti("chan_cap") < 200 ? 600 : thorough ? 100000 : 30000); o["fill"] = (int)r.below(3); if(r.below(5) == 0) o["fill"] = 3 + koff + (int)r.below(nkeys); }
 			else if(y < 76){ o["op"] = "fetch"; o["k"] = koff + (int)r.below(nkeys); o["how"] = (int)r.below(4); }
 			else if(y < 86){ o["op"] = "rise"; o["tr"] = nul_trig && r.below(2) ? 8 : r.below(3) == 0 ? (r.below(3) ? 100 : r.below(3) ? 200 : 300) + koff + (int)r.below(nkeys) : (ntrig ? (int)r.below(ntrig) : 100); }
 			else if(y < 90){ o["op"] = "clear"; }
